@@ -126,6 +126,19 @@ theorem nats_transient :
     isTransient (some (.leaf "nats: connection closed".toList ["nats.ErrConnectionClosed"])) = true := by
   decide
 
+/-- The client's permission errors, its missing-bucket error and its key-exists sentinel are permanent, bare and
+    wrapped with `%w` (texts as in nats.go). -/
+theorem nats_permission_bucket_exists_permanent :
+    isPermanent (some (.leaf "nats: permissions violation".toList [])) = true ∧
+    isPermanent (some (.leaf "nats: authorization violation".toList [])) = true ∧
+    isPermanent (some (.leaf "nats: authentication expired".toList [])) = true ∧
+    isPermanent (some (.leaf "nats: authentication revoked".toList [])) = true ∧
+    isPermanent (some (.leaf "nats: bucket not found".toList [])) = true ∧
+    isPermanent (some (.leaf "nats: key exists".toList ["nats.ErrKeyExists"])) = true ∧
+    isPermanent (some (.wrap "kv: ".toList [] (.leaf "nats: permissions violation".toList []))) = true ∧
+    isPermanent (some (.wrap "create: ".toList [] (.leaf "nats: key exists".toList ["nats.ErrKeyExists"]))) = true := by
+  decide
+
 /-- The heartbeat's own time-out error (what `heartbeatLoop` builds) is transient. -/
 theorem heartbeat_timeout_transient (d : List Char) :
     isTransient (some (.timeout0 "heartbeat update".toList d)) = true :=
